@@ -389,7 +389,13 @@ class ScoredCollector(Collector):
             # matcher with a more efficient version
             if replace:
                 if replacecounter == 0 or self.minscore != minscore:
-                    self.matcher = matcher = matcher.replace(minscore or 0)
+                    # Only pass a quality threshold down if the matcher tree
+                    # can actually answer quality questions
+                    if usequality:
+                        minquality = minscore or 0
+                    else:
+                        minquality = 0
+                    self.matcher = matcher = matcher.replace(minquality)
                     self.replaced_times += 1
                     if not matcher.is_active():
                         break
